@@ -574,7 +574,7 @@ pub fn run_c06(ctx: &Ctx) -> Report {
         });
         rep.merge(r);
     }
-    if !ctx.miri && ctx.only.is_none() {
+    if ctx.strict() {
         rep.require("cells_compared", 10_000);
         rep.require("null_cells_compared", 100);
         rep.require("dates_compared", 10_000);
@@ -927,7 +927,7 @@ pub fn run_c07(ctx: &Ctx) -> Report {
         }
     });
     rep.merge(r);
-    if !ctx.miri && ctx.only.is_none() {
+    if ctx.strict() {
         rep.require("cells_compared", 10_000);
         rep.require("null_cells_compared", 1000);
         rep.require("refusals_observed", 100);
